@@ -41,7 +41,7 @@ var c01Kinds = []struct {
 
 var c01Positions = []string{
 	"alone", "override-onto-valid", "valid-onto-it", "second-document", "extends-child", "extends-base",
-	"tag-override", "tag-reset", "both-files", "extends-both",
+	"tag-override", "tag-reset", "both-files", "extends-both", "both-files-unvalidated",
 	"extends-other-file-child", "extends-other-file-base", "included-file",
 }
 
@@ -182,6 +182,10 @@ func c01SchemaCaseLeaf(p schemaPath, leaf any, kindName string, position string)
 	case "both-files":
 		// the same (possibly ill-typed) node on both sides of a merge
 		two(leafDoc(segs, leaf), leafDoc(segs, cloneTree(leaf)))
+	case "both-files-unvalidated":
+		// ... with schema validation off, so that the first file does not stop the load before the merge
+		two(leafDoc(segs, leaf), leafDoc(segs, cloneTree(leaf)))
+		cs.Load.Opts.SkipValidation = true
 	case "extends-both":
 		if !isService || len(segs) < 3 {
 			return cs, false
@@ -691,7 +695,7 @@ func TestC01(t *testing.T) {
 	c.Extra("node_kinds", len(c01Kinds))
 
 	// (1) schema path x node kind x pipeline position
-	positions := c01Positions[:10]
+	positions := c01Positions[:11]
 	if c.Thorough() {
 		positions = c01Positions
 		c01FullBase = true
@@ -892,6 +896,16 @@ func TestC01(t *testing.T) {
 		"name: other\nversion: \"3\"\nservices:\n  a:\n    build: {context: .}\n    depends_on: [b]\n    networks: [n]\n    secrets: [s]\n  b: {image: y, profiles: [p]}\nnetworks: {n: {}}\nsecrets: {s: {environment: SVAL}}\n"}
 	RunEnum(c, t, "option-combinations", 1024*len(optDocs), func(i int) c01Case {
 		return c01Case{What: "options", Path: fmt.Sprintf("bits=%d", i%1024), Load: loadCase{Files: []memFile{{Name: "compose.yaml", Content: optDocs[i/1024]}}, Main: []string{"compose.yaml"}, Opts: optsFromBits(i % 1024), Env: map[string]string{"SVAL": "v"}}}
+	}, c01Check, true)
+
+	// (5b) the remaining knobs of Options on the same documents and on one with an include: no interpolation
+	// options at all, a project name that is only a fallback, a registered extension type
+	optDocs2 := append([]string{"include:\n  - inc.yaml\nname: fromfile\nservices:\n  a:\n    image: ${IMG:-x}\n    x-known: {name: n}\n"}, optDocs...)
+	extra := []loadOpts{{NilInterpolate: true}, {NilInterpolate: true, SkipInterpolation: true}, {NilInterpolate: true, NameNotImperative: true}, {NameNotImperative: true, KnownExt: "pointer"}, {KnownExt: "value", SkipNormalization: true},
+		{NilInterpolate: true, SkipValidation: true, SkipConsistencyCheck: true}}
+	RunEnum(c, t, "option-extras", len(optDocs2)*len(extra), func(i int) c01Case {
+		return c01Case{What: "options", Path: fmt.Sprintf("extra=%d", i%len(extra)), OnDisk: true, Load: loadCase{Files: []memFile{{Name: "compose.yaml", Content: optDocs2[i/len(extra)]}, {Name: "inc.yaml", Content: "services:\n  inc:\n    image: ${INC:-i}\n"}},
+			Main: []string{"compose.yaml"}, Opts: extra[i%len(extra)], Env: map[string]string{"SVAL": "v"}}}
 	}, c01Check, true)
 
 	// replay entry point for inputs saved by the native fuzz target FuzzC01
